@@ -273,7 +273,15 @@ func fieldAlwaysInitialised(c *Ctx, x ssa.Value) (string, bool) {
 		return "", false
 	}
 	allocs := 0
+	// a function of the repository is never judged by what a control constructs
+	ownIsControl := false
+	if xi, ok := x.(ssa.Instruction); ok && xi.Parent() != nil {
+		ownIsControl = c.P.IsControl(xi.Parent())
+	}
 	for _, fn := range c.P.SrcFuncs() {
+		if c.P.IsControl(fn) && !ownIsControl {
+			continue
+		}
 		for _, b := range fn.Blocks {
 			for _, in := range b.Instrs {
 				al, ok := in.(*ssa.Alloc)
